@@ -191,3 +191,7 @@ Definition builtin_function (name : str) (args : list value) : option ares :=
   else if str_eqb name n_sum then Some (fold_arith OpAdd dec_zero false args)
   else if str_eqb name n_mulf then Some (fold_arith OpMul dec_one false args)
   else None.
+
+(** * Conversions (value.rs From impls): Decimal::from_iN(n).unwrap_or_default() *)
+Definition from_int (z : Z) : value :=
+  if (Z.abs z <? 79228162514264337593543950336)%Z then VNum (of_Z z) else VNum dec_zero.
